@@ -32,13 +32,13 @@ def commb_frame(addr, df21, head, mb, case):
 def position_abstract(msg0, msg1, t0, t1, lat_ref=None, lon_ref=None):
     """what process_raw needs to know about adsb.position (proved in C03 / C05): it raises RuntimeError,
     returns None, or returns a (lat, lon) pair of real numbers"""
-    k = abstract_int("position_outcome", 0, 2, msg0, msg1, t0, t1)
+    k = abstract_int("position_outcome", 0, 2, msg0, msg1, t0, t1, lat_ref, lon_ref)
     if k == 0:
         raise RuntimeError("inconsistent pair")
     if k == 1:
         return None
-    return (abstract_real("position.lat", -91, 91, msg0, msg1, t0, t1),
-            abstract_real("position.lon", -361, 721, msg0, msg1, t0, t1))
+    return (abstract_real("position.lat", -91, 91, msg0, msg1, t0, t1, lat_ref, lon_ref),
+            abstract_real("position.lon", -361, 721, msg0, msg1, t0, t1, lat_ref, lon_ref))
 
 
 def position_with_ref_abstract(msg, lat_ref, lon_ref):
@@ -54,17 +54,17 @@ def position_with_ref_abstract(msg, lat_ref, lon_ref):
             abstract_real("position_with_ref.lon", -1000, 1000, msg, lat_ref, lon_ref))
 
 
-def _n_pos(msg0, msg1, t0, t1):
+def _n_pos(msg0, msg1, t0, t1, lat_ref=None, lon_ref=None):
     try:
-        r = ADSB.position(msg0, msg1, t0, t1)
+        r = ADSB.position(msg0, msg1, t0, t1, lat_ref, lon_ref)
     except RuntimeError:
         return 0
     return 1 if r is None else 2
 
 
 NATIVE_ABSTRACT["position_outcome"] = _n_pos
-NATIVE_ABSTRACT["position.lat"] = lambda m0, m1, t0, t1: ADSB.position(m0, m1, t0, t1)[0]
-NATIVE_ABSTRACT["position.lon"] = lambda m0, m1, t0, t1: ADSB.position(m0, m1, t0, t1)[1]
+NATIVE_ABSTRACT["position.lat"] = lambda m0, m1, t0, t1, a=None, b=None: ADSB.position(m0, m1, t0, t1, a, b)[0]
+NATIVE_ABSTRACT["position.lon"] = lambda m0, m1, t0, t1, a=None, b=None: ADSB.position(m0, m1, t0, t1, a, b)[1]
 NATIVE_ABSTRACT["position_with_ref.lat"] = lambda m, a, b: ADSB.position_with_ref(m, a, b)[0]
 NATIVE_ABSTRACT["position_with_ref.lon"] = lambda m, a, b: ADSB.position_with_ref(m, a, b)[1]
 
@@ -76,8 +76,8 @@ OVR = {"pyModeS.decoder.adsb.position": position_abstract,
        "pyModeS.decoder.bds.bds08.callsign": callsign_opaque}    # exact contract: C10
 
 
-def new_decoder():
-    return new_object(DEC.Decode, acs={}, lat0=None, lon0=None, t=0, cache_timeout=60, dumpto=None)
+def new_decoder(lat0=None, lon0=None):
+    return new_object(DEC.Decode, acs={}, lat0=lat0, lon0=lon0, t=0, cache_timeout=60, dumpto=None)
 
 
 TCQ = [2, 6, 11, 19, 31]       # (the induction step below covers every type code from every record state)
@@ -294,25 +294,30 @@ STATE_INPUTS = {"has_tpos": Choice(False, True), "pair": Choice(-1, 0, 1, 2, qui
 
 
 @harness("C17", inputs={"tc": Choice(*range(32)), "r": BinStr(51), "p": BinStr(24), "case": BinStr(28),
-                         "t": RealRange(0, 100000), "dnow": RealRange(0, 400)},
+                         "t": RealRange(0, 100000), "dnow": RealRange(0, 400), "rx": Choice(False, True),
+                         "lat0": RealRange(-90, 90), "lon0": RealRange(-180, 180)},
          functions=[D + "process_raw", D + "get_aircraft"], body_of=[D + "process_raw", D + "get_aircraft"],
          overrides=OVR, idealised=True)
-def adsb_base_establishes_invariant(tc, r, p, case, t, dnow):
-    dec = new_decoder()
+def adsb_base_establishes_invariant(tc, r, p, case, t, dnow, rx, lat0, lon0):
+    # (with and without a configured receiver location)
+    dec = new_decoder(lat0, lon0) if rx else new_decoder()
     m = adsb_frame("A", bits_of(tc, 5) + r, p, case)
     o = outcome(dec.process_raw, [t], [m], [], [], t + dnow)
     assert o == ("ret", None), "process_raw does not raise on the first message of an aircraft"
     acs = dec.get_aircraft()
     if "ABCDEF" in acs:
         assert inv(acs["ABCDEF"]), "a freshly created record is inside the invariant (induction base)"
+        assert "tpos" not in acs["ABCDEF"] and acs["ABCDEF"]["lat"] is None and acs["ABCDEF"]["lon"] is None, \
+            "a single first message stores no position (a fix needs an even/odd pair or a previous fix)"
 
 
 @harness("C17", inputs=dict(STATE_INPUTS, tc=Choice(*range(32), quick=[0, 2, 6, 11, 19, 29, 31]), ra=BinStr(16),
-                            oe=Choice(0, 1), rb=BinStr(34), p=BinStr(24), case=BinStr(28)),
+                            oe=Choice(0, 1), rb=BinStr(34), p=BinStr(24), case=BinStr(28), rx=Choice(False, True),
+                            lat0=RealRange(-90, 90), lon0=RealRange(-180, 180)),
          functions=[D + "process_raw", D + "get_aircraft"], body_of=[D + "process_raw", D + "get_aircraft"],
          overrides=OVR, idealised=True, timeout={"quick": 120000, "thorough": 600000})
 def adsb_step_preserves_invariant(has_tpos, pair, ver, nic, lat, lon, dtpos, dt0, dt1, m0, m1, nic_s, nic_a, nic_bc,
-                                  t_last, tc_last, d, dnow, live_b, tc, ra, oe, rb, p, case):
+                                  t_last, tc_last, d, dnow, live_b, tc, ra, oe, rb, p, case, rx, lat0, lon0):
     # (the CPR format bit, ME bit 22, is a case parameter so that the slot the message is filed under is concrete)
     # case pruning: the stored pair, the NIC supplements and the version are only read for position type codes
     # (5-18, 20-22; version also for 19, 29, 31): for the other type codes the two extreme states suffice
@@ -321,8 +326,11 @@ def adsb_step_preserves_invariant(has_tpos, pair, ver, nic, lat, lon, dtpos, dt0
         if not (tc == 19 or tc == 29 or tc == 31):
             assume(ver is None or ver == 2)
         assume(oe == 0)
+    # the receiver location only matters to position messages (it is handed to position() for surface pairs)
+    if not (5 <= tc and tc <= 18):
+        assume(not rx)
     r = ra + bits_of(oe, 1) + rb
-    dec = new_decoder()
+    dec = new_decoder(lat0, lon0) if rx else new_decoder()
     acs0 = {"012345": record("012345", live_b, 0)}
     acs0["012345"]["live"] = live_b
     acs0["012345"]["t"] = live_b
@@ -365,9 +373,10 @@ def adsb_step_preserves_invariant(has_tpos, pair, ver, nic, lat, lon, dtpos, dt0
                     told = (t_last - dt0) if odd else (t_last - dt1)
                     me, mo = (m0, m) if odd else (m, m1)
                     te, to = (told, t) if odd else (t, told)
-                    if t - told < 10 and abstract_int("position_outcome", 0, 2, me, mo, te, to) == 2:
-                        ok = ok or (rec["lat"] == abstract_real("position.lat", -91, 91, me, mo, te, to) and
-                                    rec["lon"] == abstract_real("position.lon", -361, 721, me, mo, te, to))
+                    ra_, rb_ = (lat0, lon0) if rx else (None, None)
+                    if t - told < 10 and abstract_int("position_outcome", 0, 2, me, mo, te, to, ra_, rb_) == 2:
+                        ok = ok or (rec["lat"] == abstract_real("position.lat", -91, 91, me, mo, te, to, ra_, rb_) and
+                                    rec["lon"] == abstract_real("position.lon", -361, 721, me, mo, te, to, ra_, rb_))
             assert ok, ("a position stored by this call is position_with_ref(this message, previous fix younger than "
                         "180 s), else position(even, odd) of this message and the opposite-parity frame heard less "
                         "than 10 s before, this message being the newer one")
